@@ -113,7 +113,12 @@ def build_model(e, prog, ms):
                                     bias=vec_i32(tm['bias'])))
     args = [mk_tuple_struct('NgramModel', char_ngrams), mk_tuple_struct('NgramModel', type_ngrams),
             mk_tuple_struct('DictModel', Seq(recs)), ms.bias, u8(ms.shape['cw']), u8(ms.shape['tw']), Seq(tag_models)]
-    return e.run(hlib.fn(prog, 'Model', 'new'), args)
+    if prog.by_key.get(('Model', None, 'new')):
+        return e.run(hlib.fn(prog, 'Model', 'new'), args)
+    # Model::new only exists with the train/kytea features: build the value field by field (what Model::read produces)
+    md = mk_struct(prog, 'ModelData', char_ngram_model=args[0], type_ngram_model=args[1], dict_model=args[2], bias=args[3],
+                   char_window_size=args[4], type_window_size=args[5], tag_models=args[6])
+    return mk_tuple_struct('Model', md)
 
 
 def new_predictor(e, prog, model, predict_tags=False):
